@@ -58,7 +58,7 @@ def main():
             except queue.Empty: return
             base = d if os.path.isabs(d) else f"/verif/seeded/{d}"
             own = json.load(open(f"{base}/meta.json")).get("breaks_property", "-")
-            args = own if mode == "own" else ""
+            args = own if mode == "own" else os.environ.get("LANE_CHECKS", "")  # LANE_CHECKS="C01 C13": only these checks in mode all
             r = subprocess.run(f"python3 /verif/tools/seeded.py run {d} {args}", shell=True, env=env, capture_output=True, text=True)
             lines = [l for l in r.stdout.splitlines() if l.startswith("C")]
             fired = [l.split()[0] + ("(exit 2)" if l.split()[1] == "2" else "") for l in lines if l.split()[1] in ("1", "2")]
